@@ -11,6 +11,9 @@
 //!   R:<polls>:<fragment limit>           subscriber: an `Image` over the same log (hook H3 `Image::create_for_verif` when the
 //!                                        repository has it, else a copy of `Image::poll` around the real `term_reader::read`)
 //!                                        polled <polls> times; the handler reads the flags byte and the payload (one burst)
+//!   X:<budget>:<k>x<len>,...            exclusive publisher (`ExclusivePublication`, must be the only publisher of the case)
+//!   Q:<budget>:<k>x<len>[a],...          shared publisher using try_claim: claim len bytes, write payload(k,len) into the claim,
+//!                                        then commit (or abort when the item ends in `a`)
 //! S = schedule (thread granted the i-th step), K = crash points (`-` none, k = stop for ever after k granted steps).
 //!
 //! Observation (Coq term syntax):
@@ -27,6 +30,8 @@ use aeron_rs::concurrent::logbuffer::log_buffer_descriptor as lbd;
 use aeron_rs::concurrent::logbuffer::term_reader;
 use aeron_rs::utils::types::Index;
 use aeron_rs::concurrent::position::{ReadablePosition, UnsafeBufferPosition};
+use aeron_rs::concurrent::logbuffer::buffer_claim::BufferClaim;
+use aeron_rs::exclusive_publication::ExclusivePublication;
 use aeron_rs::publication::Publication;
 use aeron_rs::utils::errors::AeronError;
 use aeron_rs::verif_hook::AccessKind;
@@ -52,6 +57,8 @@ enum ThreadSpec {
     Publisher { budget: usize, msgs: Vec<(i64, i32)> },
     Env { ops: Vec<EnvOp> },
     Reader { polls: usize, limit: i32 },
+    Exclusive { budget: usize, msgs: Vec<(i64, i32)> },
+    Claimer { budget: usize, msgs: Vec<(i64, i32, bool)> },
 }
 
 /// The subscriber side. With hook H3 this is the repository's `Image`; without it, `Image::poll` copied verbatim
@@ -158,6 +165,42 @@ fn parse_thread(s: &str) -> ThreadSpec {
                 })
                 .collect();
             ThreadSpec::Env { ops }
+        }
+        "X" => {
+            let mut it2 = rest.splitn(2, ':');
+            let budget: usize = it2.next().unwrap().parse().expect("bad int budget");
+            let msgs = it2
+                .next()
+                .unwrap_or("")
+                .split(',')
+                .filter(|x| !x.is_empty())
+                .map(|m| {
+                    let mut kv = m.split('x');
+                    let k: i64 = kv.next().unwrap().parse().expect("bad int k");
+                    let l: i32 = kv.next().unwrap().parse().expect("bad int len");
+                    (k, l)
+                })
+                .collect();
+            ThreadSpec::Exclusive { budget, msgs }
+        }
+        "Q" => {
+            let mut it2 = rest.splitn(2, ':');
+            let budget: usize = it2.next().unwrap().parse().expect("bad int budget");
+            let msgs = it2
+                .next()
+                .unwrap_or("")
+                .split(',')
+                .filter(|x| !x.is_empty())
+                .map(|m| {
+                    let abort = m.ends_with('a');
+                    let m = m.trim_end_matches('a');
+                    let mut kv = m.split('x');
+                    let k: i64 = kv.next().unwrap().parse().expect("bad int k");
+                    let l: i32 = kv.next().unwrap().parse().expect("bad int len");
+                    (k, l, abort)
+                })
+                .collect();
+            ThreadSpec::Claimer { budget, msgs }
         }
         "R" => {
             let mut it2 = rest.splitn(2, ':');
@@ -300,6 +343,89 @@ fn run_case(line: &str) -> String {
                             budget -= 1;
                             let r = publication.0.offer_part(src, 0, len);
                             let ok = r.is_ok();
+                            res.lock().unwrap().push(match &r {
+                                Ok(p) => format!("Ok ({})", p),
+                                Err(e) => err_obs(e),
+                            });
+                            if ok {
+                                break;
+                            }
+                        }
+                    }
+                    "Done".to_string()
+                }));
+            }
+            ThreadSpec::Exclusive { budget, msgs } => {
+                let publication = SendBox(ExclusivePublication::new(
+                    client.conductor.clone(),
+                    CString::new("aeron:ipc").unwrap(),
+                    100 + t as i64,
+                    STREAM_ID,
+                    SESSION_ID,
+                    UnsafeBufferPosition::new(counters, LIMIT_COUNTER_ID),
+                    -1,
+                    log.log_buffers.clone(),
+                ));
+                bodies.push(Box::new(move || {
+                    let mut publication = publication;
+                    let mut budget = budget;
+                    for (k, len) in msgs {
+                        let bytes = vcommon::payload(k, len.max(0) as usize);
+                        let src_mem = AlignedBuffer::with_capacity(len.max(8));
+                        let src = AtomicBuffer::from_aligned(&src_mem);
+                        src.put_bytes(0, &bytes);
+                        loop {
+                            if budget == 0 {
+                                return "Done".to_string();
+                            }
+                            budget -= 1;
+                            let r = publication.0.offer_part(src, 0, len);
+                            let ok = r.is_ok();
+                            res.lock().unwrap().push(match &r {
+                                Ok(p) => format!("Ok ({})", p),
+                                Err(e) => err_obs(e),
+                            });
+                            if ok {
+                                break;
+                            }
+                        }
+                    }
+                    "Done".to_string()
+                }));
+            }
+            ThreadSpec::Claimer { budget, msgs } => {
+                let publication = SendBox(Publication::new(
+                    client.conductor.clone(),
+                    CString::new("aeron:ipc").unwrap(),
+                    100 + t as i64,
+                    100,
+                    STREAM_ID,
+                    SESSION_ID,
+                    UnsafeBufferPosition::new(counters, LIMIT_COUNTER_ID),
+                    -1,
+                    log.log_buffers.clone(),
+                ));
+                bodies.push(Box::new(move || {
+                    let mut publication = publication;
+                    let mut budget = budget;
+                    for (k, len, abort) in msgs {
+                        let bytes = vcommon::payload(k, len.max(0) as usize);
+                        loop {
+                            if budget == 0 {
+                                return "Done".to_string();
+                            }
+                            budget -= 1;
+                            let mut claim = BufferClaim::default();
+                            let r = publication.0.try_claim(len, &mut claim);
+                            let ok = r.is_ok();
+                            if ok {
+                                claim.buffer().put_bytes(claim.offset(), &bytes);
+                                if abort {
+                                    claim.abort();
+                                } else {
+                                    claim.commit();
+                                }
+                            }
                             res.lock().unwrap().push(match &r {
                                 Ok(p) => format!("Ok ({})", p),
                                 Err(e) => err_obs(e),
